@@ -7,7 +7,7 @@ ORACLES = {
             "expiry_not_early", "resolves_on_time", "invalidity_accept_window", "invalidity_reject_reason",
             "proof_accept_conditions", "publish_accept", "publish_starts_in_challenge_period", "failed_msg_no_change"],
     "C08": ["escrow_eq", "records_only_unresolved", "payout_rule", "dust_bound", "failed_msg_no_change"],
-    "C09": ["verdict_ref", "fault_ref", "fault_reset", "challenge_counter", "slash_ref"],
+    "C09": ["verdict_ref", "fault_ref", "fault_reset", "challenge_counter", "slash_ref", "threshold_ref"],
 }
 ALWAYS = ["no_panic", "no_halt", "hang"]
 
